@@ -100,6 +100,17 @@ Theorem C06_statement_ref_roundtrip : forall cfg code pre n a id comma more lsem
             e_kind e <> KString -> e_kind e = KStructuredPreExisting /\ e_ref e = Some id.
 Proof. exact stmtA_ref_roundtrip. Qed.
 
+(* (4) WHAT AN EDIT RUN MAKES OF A STATEMENT READS BACK.  `add_ref it e0 id` is the statement the written bytes
+   contain in place of `it` (C03_canonical_rewritten): placed anywhere in any file under any configuration, an
+   entry of the same kind as e0 -- message kind for the token, key-value kind for `ref = id` -- carries exactly id *)
+Theorem C06_rewritten_statement_reads_back : forall it e0 id,
+  id <= 4294967295 ->
+  ((exists n l us, it = IStmt n l us) \/ (exists n a, it = IStmtA n a)) ->
+  forall cfg code pre e, In e (step_entries (item_step cfg code pre (add_ref it e0 id))) ->
+  (e_kind e0 = KString -> e_kind e = KString -> e_ref e = Some id) /\
+  (e_kind e0 <> KString -> e_kind e <> KString -> e_kind e = KStructuredPreExisting /\ e_ref e = Some id).
+Proof. exact rewritten_statement_reads_back. Qed.
+
 (* The bytes an edit run writes ARE the rendering of such statements: C03_canonical_rewritten /
    C13_canonical_rewritten (every statement that lacked a reference becomes `add_token` / `add_kv` of itself, to
    which (3) applies).  NOT proved: that the rewritten item list again satisfies the side conditions `items_ok`
@@ -109,6 +120,7 @@ Proof. exact stmtA_ref_roundtrip. Qed.
 Print Assumptions C06_complete_tree_is_fixpoint.
 Print Assumptions C06_statement_token_roundtrip.
 Print Assumptions C06_statement_ref_roundtrip.
+Print Assumptions C06_rewritten_statement_reads_back.
 Print Assumptions C06_check_passes_on_complete_tree.
 Print Assumptions C06_message_token_roundtrip.
 Print Assumptions C06_structured_value_roundtrip.
